@@ -145,16 +145,16 @@ def JsRef (text : Bytes) (s : CSt) : JsS → Prop
   | .lineC => s.ctx = ContextJS ∧ s.jsComment = 1 ∧ s.quote = 0
   | .blockC => s.ctx = ContextJS ∧ s.jsComment = 2 ∧ s.quote = 0
   | .blockCStar => s.ctx = ContextJS ∧ s.jsComment = 2 ∧ s.quote = 0 ∧ text[s.pos]? ≠ some 0x2f
-  | .str q => s.ctx = ContextJSString ∧ s.jsComment = 0 ∧ s.quote = q ∧ (q = 0x22 ∨ q = 0x27)
-  | .strEsc q | .strBs q => s.ctx = ContextJSString ∧ s.jsComment = 0 ∧ s.quote = q ∧ (q = 0x22 ∨ q = 0x27) ∧
-      text[s.pos]? ≠ some q
+  | .str q | .strBs q => s.ctx = ContextJSString ∧ s.jsComment = 0 ∧ s.quote = q ∧ (q = 0x22 ∨ q = 0x27)
+  | .strEsc q => s.ctx = ContextJSString ∧ s.jsComment = 0 ∧ s.quote = q ∧ (q = 0x22 ∨ q = 0x27) ∧
+      text[s.pos]? ≠ some q ∧ text[s.pos]? ≠ some 0x5c
   | .bad => False
 
 def CssRef (text : Bytes) (s : CSt) : CssS → Prop
   | .code | .slash | .blockC | .blockCStar => s.ctx = ContextCSS ∧ s.quote = 0
-  | .str q => s.ctx = ContextCSSString ∧ s.quote = q ∧ (q = 0x22 ∨ q = 0x27)
-  | .strEsc q | .strBs q => s.ctx = ContextCSSString ∧ s.quote = q ∧ (q = 0x22 ∨ q = 0x27) ∧
-      text[s.pos]? ≠ some q
+  | .str q | .strBs q => s.ctx = ContextCSSString ∧ s.quote = q ∧ (q = 0x22 ∨ q = 0x27)
+  | .strEsc q => s.ctx = ContextCSSString ∧ s.quote = q ∧ (q = 0x22 ∨ q = 0x27) ∧
+      text[s.pos]? ≠ some q ∧ text[s.pos]? ≠ some 0x5c
   | .bad => False
 
 /-- the simulation relation between the lexer's context state (at a position of `text`) and the
